@@ -95,6 +95,7 @@ static void run_generated(Rng &r)
         if(x.has_value) { int vl = r.chance(0.25) ? 0 : (int)r.range(1, 5); for(int k = 0; k < vl; ++k) x.value += AL[r.below(7)]; }
         // documentation-sized values and long keys: the same alphabet, other orders of magnitude
         if(x.has_value && r.chance(0.02)) { int vl = (int)r.range(200, 3000); x.value.clear(); for(int k = 0; k < vl; ++k) x.value += AL[r.below(7)]; count("blocks.long_value"); }
+        if(r.chance(0.06)) { static const char *RW[] = {"documentation", "default", "min", "max", "map 0", "parameter", "scale", "unit"}; x.key = RW[r.below(8)]; if(x.key == "documentation") { x.has_value = r.chance(0.8); if(x.has_value && x.value.empty()) x.value = "text"; count("blocks.documentation_key"); } }
         if(r.chance(0.01)) { int kl = (int)r.range(250, 700); x.key = "a"; for(int k = 1; k < kl; ++k) x.key += AL[r.below(7)]; count("blocks.long_key"); }
         e.push_back(x);
     }
